@@ -395,7 +395,7 @@ theorem good_txnPlace_of_mem (w : World) (t : Txn) (oid : Nat) (v : Option Int) 
       generalize w2.orderUpdateStatus oid .pending = w3 at base m3
       have hn3 : oid ∉ (w3.market! t.market).blotter := by
         rw [market!_congr w3 w1 m3 t.market]
-        intro hin; apply hnc; exact List.contains_iff_mem.mpr hin
+        intro hin; apply hnc; rw [Bool.or_eq_true]; exact Or.inl (List.contains_iff_mem.mpr hin)
       have k4 := good_blotterAdd w3 t.market oid (Keeps.mem base.1 oid ho) hn3
       split
       · split
@@ -695,7 +695,7 @@ theorem good_executePackage (w : World) (p : Package) : Good w (w.executePackage
   | replace =>
     simp only; unfold executeReplace
     simp only
-    generalize ((w.packageOrders p).zip _) = zs
+    generalize (((w.packageOrders p).filter fun oid => (w.order! oid).status ≠ some .executionComplete).map fun oid => (oid, (w.order! oid).ud.newPrice)) = zs
     have := good_foldl_pair (replaceStep p) (fun acc pr => good_replaceStep p acc pr) zs (w, 0)
     generalize zs.foldl (replaceStep p) (w, 0) = r at this
     obtain ⟨w1, failed⟩ := r
